@@ -23,13 +23,41 @@ def qv(values, unit):
     return [quantise(float(v), unit) for v in np.ravel(values)]
 
 
+def trunc_range(model, T, l=10):
+    """the cumulant-based truncation range of Fang & Oosterlee, from the model's public cumulant object (the pricer's own
+    private helper is not an observation point)"""
+    cum = model.cumulant
+    c1, c2, c4 = cum.cumulant1(T), cum.cumulant2(T), cum.cumulant4(T)
+    try:
+        c6 = cum.cumulant6(T)
+    except Exception:
+        c6 = 0
+    delta = l * np.sqrt(c2 + np.sqrt(c4 + np.sqrt(c6)))
+    return c1 - delta, c1 + delta
+
+
 def box(rng, quick):
     from harness.models import exp_models
     from rpylib.model.levymodel.purejump.cgmy import CGMYParameters, ExponentialOfCGMYModel
     ms = dict(exp_models())
     vg = ms["vg"]
     p = vg.levy_model.parameters
-    ms["vg_as_cgmy"] = ExponentialOfCGMYModel(vg.spot, vg.r, vg.d, CGMYParameters(p._c, p._lambda_m, p._lambda_p, 0.0))
+    # variance gamma (sigma, nu, theta) as CGMY: C = 1 / nu, M = (sqrt(theta^2 + 2 sigma^2 / nu) - theta) / sigma^2, G = M + 2 theta / sigma^2
+    s2 = float(p.sigma) ** 2
+    lam_p = (np.sqrt(float(p.theta) ** 2 + 2 * s2 / float(p.nu)) - float(p.theta)) / s2
+    lam_m = lam_p + 2 * float(p.theta) / s2
+    ms["vg_as_cgmy"] = ExponentialOfCGMYModel(vg.spot, vg.r, vg.d, CGMYParameters(1.0 / float(p.nu), lam_m, lam_p, 0.0))
+    # a Black-Scholes model with a dividend yield, and models whose rates were assigned after construction
+    from rpylib.model.utils import create_exponential_of_levy_model, ModelType
+    ms["bs_div"] = create_exponential_of_levy_model(ModelType.BLACKSCHOLES)(spot=90.0, r=0.03, d=0.02, sigma=0.25)
+    m = create_exponential_of_levy_model(ModelType.BLACKSCHOLES)(spot=100.0, r=0.05, d=0.0, sigma=0.2)
+    m.d = 0.04
+    m.r = 0.02
+    ms["bs_updated"] = m
+    m = create_exponential_of_levy_model(ModelType.CGMY)()
+    m.d = 0.03
+    m.r = 0.01
+    ms["cgmy_updated"] = m
     return ms
 
 
@@ -43,10 +71,10 @@ def one(name, model, T, rng, quick, twin=None):
     S = float(model.spot)
     unit = 1e-7 * S
     ev = []
-    hdr = {"kind": f"pricer:{name}", "T100": int(round(T * 100)), "tol": 300, "tolp": 3}
+    hdr = {"kind": f"pricer:{name}", "T100": int(round(T * 100)), "tol": 300, "tola": 60, "tolp": 3}
     try:
         cos = COSPricer(model)
-        a, b = cos._interval_a_b(T)
+        a, b = trunc_range(model, T)
         lo, hi = max(S * np.exp(a / 2), 0.3 * S), min(S * np.exp(b / 2), 3.0 * S)
         n = 21 if quick else 41
         K = np.linspace(lo, hi, n)
@@ -80,7 +108,7 @@ def one(name, model, T, rng, quick, twin=None):
             rows.append([quantise(x, unit), quantise(y, unit)])
         for x, y in zip(fft.put(K, T), p):
             rows.append([quantise(x, unit), quantise(y, unit)])
-        if name == "bs":
+        if name.startswith("bs"):
             bs = CFBlackScholes(model)
             for i in range(n):
                 rows.append([quantise(bs.call(float(K[i]), T), unit), quantise(c[i], unit)])
@@ -94,8 +122,12 @@ def one(name, model, T, rng, quick, twin=None):
             for x, y in zip(ct, c):
                 rows.append([quantise(x, unit), quantise(y, unit)])
         ev.append({"e": "Agree", "rows": rows})
+        if T < 0.09:
+            # at very short maturities the law of a pure-jump model is too peaked for the cosine series of the DENSITY to
+            # have converged (the prices, which integrate it, have): the density clauses are stated for T >= 0.1
+            return {"hdr": hdr, "ev": ev}
         # implied density on the truncation range
-        s = np.linspace(S * np.exp(a * 0.95), S * np.exp(b * 0.95), 4001)
+        s = np.linspace(S * np.exp(a * 0.95), S * np.exp(b * 0.95), 2001 if quick else 4001)
         dens = cos.density(T, s)
         ev.append({"e": "Density", "min": quantise(float(np.min(dens)) * S, 1e-7), "int": quantise(float(np.trapezoid(dens, s)), 1e-7),
                    "one": quantise(1.0, 1e-7)})
@@ -116,7 +148,7 @@ def degenerate(rng):
     from rpylib.model.utils import create_exponential_of_levy_model, ModelType
     from rpylib.numerical.closedform.cfblackscholes import CFBlackScholes
     ev = []
-    hdr = {"kind": "pricer:bs-degenerate", "T100": 100, "tol": 300, "tolp": 3}
+    hdr = {"kind": "pricer:bs-degenerate", "T100": 100, "tol": 300, "tola": 60, "tolp": 3}
     try:
         for sigma, T in ((1e-12, 1.0), (0.2, 0.0), (1e-12, 2.0)):
             m = create_exponential_of_levy_model(ModelType.BLACKSCHOLES)(sigma=sigma)
@@ -147,10 +179,14 @@ def main():
     rng = random.Random(seed + 31)
     ms = box(rng, quick)
     traces = []
-    mats = [0.1, 0.5, 1.0, 2.0] if quick else [0.1, 0.25, 0.5, 1.0, 1.5, 2.0, 3.0]
+    mats = [0.02, 0.1, 0.5, 1.0, 2.0] if quick else [0.02, 0.05, 0.1, 0.25, 0.5, 1.0, 1.5, 2.0]
     for name, m in ms.items():
         for T in mats:
-            traces.append(one(name, m, T, rng, quick, twin=ms["vg_as_cgmy"] if name == "vg" else None))
+            twin = ms["vg_as_cgmy"] if name == "vg" else None
+            if name == "cgmy_updated":      # the same model built directly with the final rates
+                from rpylib.model.utils import create_exponential_of_levy_model, ModelType
+                twin = create_exponential_of_levy_model(ModelType.CGMY)(r=0.01, d=0.03)
+            traces.append(one(name, m, T, rng, quick, twin=twin))
     traces.append(degenerate(rng))
     with open(out, "w") as f:
         for k, t in enumerate(traces):
